@@ -253,6 +253,7 @@ def run(ctx):
         ctx.sample({"packages": x[0], "imports": {str(k): v for k, v in x[1].items()}, "expected": x[2], "exit": x[3]})
     special(ctx, home)
     directory_names(ctx, home, quick)
+    symlinked_ancestors(ctx, home)
     git_imports(ctx)
 
 
@@ -385,6 +386,48 @@ def directory_names(ctx, home, quick):
             shutil.rmtree(base, ignore_errors=True)
 
     pmap(one, list(enumerate(jobs)))
+
+
+def symlinked_ancestors(ctx, home):
+    """a package reached through a path with a symbolic link in a *directory component*, whose own relative import climbs out of the linked directory:
+    `..` is relative to where the importing _package.yml really is (docs: "relative to the manifest"). With nothing, and with a decoy package of the same
+    namespace, at the place a lexical reading of the path would give; as a chain and as a diamond (the root importing the real directory as well)."""
+    dirs = {0: "proj/app", 1: "libs/ext/mid", 2: "libs/base"}
+    for shape, adj in (("chain", {0: [1], 1: [2]}), ("diamond", {0: [1, 2], 1: [2]}), ("diamond-direct-first", {0: [2, 1], 1: [2]})):
+        plain_base = os.path.join(ctx.workdir, "cases", "sa_%s_plain" % shape)
+        shutil.rmtree(plain_base, ignore_errors=True)
+        p0, parsed0, dump0 = observe(write_graph(plain_base, 3, adj), home)
+        if p0.rc != 0:
+            raise Inconclusive("plain %s rejected" % shape)
+        shutil.rmtree(plain_base, ignore_errors=True)
+        for decoy in (None, "same-namespace", "other-namespace"):
+            base = os.path.join(ctx.workdir, "cases", "sa_%s_%s" % (shape, decoy or "nodecoy"))
+            shutil.rmtree(base, ignore_errors=True)
+
+            def imp(i, j):
+                return {(0, 1): "../ext/mid", (1, 2): "../../base", (0, 2): "../../libs/base"}[(i, j)]
+            pkgdir = write_graph(base, 3, adj, dir_of=lambda i: dirs[i], import_path=imp)
+            os.symlink(os.path.join("..", "libs", "ext"), os.path.join(base, "proj", "ext"))
+            if decoy:
+                common.write_tree(base, {"proj/base/_package.yml": "namespace: %s\n" % ("P2" if decoy == "same-namespace" else "Decoy"),
+                                         "proj/base/model.yml": "R2: !record\n  fields:\n    decoy: string\n    other: float\n"})
+            p, parsed, dump = observe(pkgdir, home)
+            ctx.ev()
+            ctx.count("symlinked-ancestor")
+            ctx.case(("symlinked-ancestor", shape, decoy))
+            desc = "%s with the middle package reached through a linked directory (%s at the lexical place)" % (shape, decoy or "nothing")
+            case = {"case_dir": base, "stderr": cli.clean(p.stderr)[-1200:]}
+            site = cli.panic_site(p.stderr)
+            if site:
+                ctx.violation("panic@%s" % site, "%s: crash" % desc, case)
+            elif p.rc != 0:
+                ctx.violation("symlinked-ancestor:rejected", "%s: a valid graph is rejected: %s" % (desc, cli.clean(p.stderr)[:300]), case)
+            elif sorted(parsed) != sorted(parsed0):
+                ctx.violation("symlinked-ancestor:load-count", "%s: namespaces parsed %s, in plain directories %s" % (desc, sorted(parsed), sorted(parsed0)), case)
+            elif dump != dump0:
+                ctx.violation("symlinked-ancestor:model-differs", "%s: the model differs from the one of the plain layout (another directory was loaded?)" % desc, case)
+            else:
+                shutil.rmtree(base, ignore_errors=True)
 
 
 def git_imports(ctx):
